@@ -193,6 +193,20 @@ class Gen:
                 else:
                     self.emit("remove %d %s" % (h, hexs(sp)))
                 return
+            if r.chance(1, 8):
+                # another spelling (case) of the entry's own name: the new spelling must be stored
+                h, base = self.pick_base(p[:-1])
+                np = p[:-1] + (self.case_variant(p[-1]),)
+                self.emit("rename %d %s %d %s" % (h, hexs(self.rel(base, p)), h, hexs(self.rel(base, np))))
+                self.emit("list %d" % h)
+                if p in self.files:
+                    self.files[np] = self.files.pop(p)
+                else:
+                    for q in [q for q in self.dirs if q[:len(p)] == p]:
+                        del self.dirs[q]; self.dirs[np + q[len(p):]] = None
+                    for q in [q for q in self.files if q[:len(p)] == p]:
+                        self.files[np + q[len(p):]] = self.files.pop(q)
+                return
             if p in self.dirs and dd[:len(p)] == p:
                 if not r.chance(1, 6):   # moving a directory into itself: rarely, on purpose
                     return
